@@ -95,6 +95,7 @@ PROPS = {
         "level": "exploration",
         "units": [
             U("c16", "TestBackupRestore", T(5, 16, 400, shrinktime="45s"), T(5, 96, 900, shrinktime="200s"), needs=["nodeexec"]),
+            U("c16", "TestBackupOfReplica", T(1, 10, 400, shrinktime="45s"), T(2, 128, 900, shrinktime="200s"), needs=["nodeexec"]),
             U("c16", "TestKnownFindings", T(None, 1, 120), T(None, 1, 120), needs=["nodeexec"]),
         ],
     },
